@@ -27,7 +27,9 @@ def dig(x):
             x.compute_landscape()
         return repr(content(x)).encode()
     if isinstance(x, PersistenceImager):
-        return repr((x.birth_range, x.pers_range, x.pixel_size, x.resolution, x.width, x.height)).encode()
+        # public configuration plus the stored pixel mesh (read through the object's __dict__: every ndarray it holds)
+        mesh = b"|".join(k.encode() + np.ascontiguousarray(v).tobytes() for k, v in sorted(vars(x).items()) if isinstance(v, np.ndarray))
+        return repr((x.birth_range, x.pers_range, x.pixel_size, x.resolution, x.width, x.height, x.kernel_params, x.weight_params)).encode() + mesh
     if isinstance(x, PersistenceLandscaper):
         return repr((x.start, x.stop, x.num_steps, x.hom_deg, x.flatten)).encode()
     if sps.issparse(x):
@@ -83,6 +85,11 @@ def make_pool():
                 A[a, b] = 1
         return sps.csr_matrix(A)
     P["G1"], P["G2"] = graph(14, 4), graph(16, 3)
+    # the same graphs in dense containers (float64 / integer arrays, nested lists), upper-triangular and symmetric
+    P["G1df"] = P["G1"].toarray().astype(np.float64)
+    P["G2df"] = (P["G2"] + P["G2"].T).toarray().astype(np.float64)
+    P["G1di"] = P["G1"].toarray().astype(np.int64)
+    P["G2l"] = P["G2"].toarray().tolist()
     P["xs"] = np.linspace(-2.0, 2.0, 9)
     P["ys"] = np.linspace(-1.0, 3.0, 9)
     with warnings.catch_warnings():
@@ -93,6 +100,8 @@ def make_pool():
         P["pla2"] = PersLandscapeApprox(dgms=[P["D2"].copy()], hom_deg=0, start=0, stop=8, num_steps=9)
         P["pla3"] = PersLandscapeApprox(dgms=[P["D2"].copy()], hom_deg=0, start=0, stop=10, num_steps=6)
         P["pim"] = PersistenceImager(birth_range=(0.0, 6.0), pers_range=(0.0, 6.0), pixel_size=2.0)
+        P["pims"] = PersistenceImager(birth_range=(0.0, 6.0), pers_range=(0.0, 6.0), pixel_size=2.0, kernel_params={"sigma": 0.25})
+        P["pima"] = PersistenceImager(birth_range=(0.0, 6.0), pers_range=(0.0, 6.0), pixel_size=2.0, kernel_params={"sigma": np.array([[0.5, 0.0], [0.0, 2.0]])})
         P["pimu"] = PersistenceImager(birth_range=(0.0, 6.0), pers_range=(0.0, 6.0), pixel_size=2.0, kernel="uniform", kernel_params={"width": 2.0, "height": 2.0})
     P["img"] = np.arange(9.0).reshape(3, 3)
     return P
@@ -157,6 +166,19 @@ def _(P, v):
 def _(P, v):
     np.random.seed(12)
     return list(persim.gromov_hausdorff(P["G2"], P["G1"], mapping_sample_size_order=np.array([0.5, 0])))
+@ep("gromov_hausdorff dense float64")
+def _(P, v):
+    np.random.seed(14)
+    return list(persim.gromov_hausdorff(P["G1df"], P["G2df"]))
+@ep("gromov_hausdorff dense int / nested list")
+def _(P, v):
+    np.random.seed(15)
+    return list(persim.gromov_hausdorff(P["G1di"], P["G2l"]))
+@ep("gromov_hausdorff collection dense")
+def _(P, v):
+    np.random.seed(16)
+    lb, ub = persim.gromov_hausdorff([P["G1df"], P["G2df"], P["G1di"]])
+    return [lb, ub]
 @ep("gromov_hausdorff collection")
 def _(P, v):
     np.random.seed(13)
@@ -188,6 +210,14 @@ def _(P, v): return P["pim"].transform(V(P, "D1", v, F2))
 def _(P, v): return list(P["pim"].transform([V(P, "D1", v, F2), V(P, "D2", v, F2)]))
 @ep("imager transform skew=False")
 def _(P, v): return P["pim"].transform(P["BP"], skew=False)
+@ep("imager isotropic sigma=0.25 transform", F2)
+def _(P, v): return P["pims"].transform(V(P, "D1", v, F2))
+@ep("imager isotropic sigma=0.25 transform list")
+def _(P, v): return list(P["pims"].transform([P["D2"], P["D1"]]))
+@ep("imager axis-aligned sigma transform")
+def _(P, v): return P["pima"].transform(P["D2"])
+@ep("imager transform n_jobs=1")
+def _(P, v): return list(P["pim"].transform([P["D1"], P["D2"]], n_jobs=1))
 @ep("imager uniform transform")
 def _(P, v): return P["pimu"].transform(P["D2"])
 @ep("imager fit_transform (fresh imager)", F2)
